@@ -42,6 +42,7 @@ def gen(ctx):
         rep = r["report"]
         ctx.notes.append(f"tr_init: {rep['n_functions']} functions, {rep['n_init_assign']} __init__ bindings, "
                          f"{rep['n_class_bindings']} class-level bindings, {rep['n_mutable_defaults']} mutable defaults (read-only)")
+    H.obl_c10(ctx)      # C16_fast_fresh_for_this_code: the database hypothesis decided on the regenerated tables
     rep = tr_init.db_hypotheses(os.path.join(vlib.REPO, "nmea2000", "pgns.py"))
     ctx.extra_obligations.append({"name": "tr_init.db_hypotheses(pgns.py): decode_pgn_N builds PGN N", "ok": rep["ok"],
                                   "detail": rep["detail"]})
